@@ -674,7 +674,11 @@ class FileExec:
                 elif isinstance(t, (ast.Tuple, ast.List)):
                     _err("get_file: tuple assignment is outside the fragment")
         elif isinstance(s, ast.If):
-            self.block(s.body if self.truth(s.test, env, fn, depth) else s.orelse, env, fn, depth)
+            n0 = len(self.trace)
+            res = self.truth(s.test, env, fn, depth)
+            del self.trace[n0:]
+            self.trace.append("`%s` is %s" % (norm(s.test), res))
+            self.block(s.body if res else s.orelse, env, fn, depth)
         elif isinstance(s, ast.Return):
             raise _Returned(self.ev(s.value, env, fn, depth) if s.value is not None else NONE_, s)
         elif isinstance(s, ast.Raise):
@@ -969,6 +973,14 @@ def _mutants(nodes):
             n.args = [ast.Call(ast.Attribute(n.args[0], "lower", ast.Load()), [], [])]
             out.append(("get_file: reads name.lower()", t, True))
             break
+    # helper returning a None sentinel: falsy test (empty entry reported absent) vs `is None`
+    helper = "def _read_entry(self, filename):\n    try:\n        return self.zip.read(filename)\n    except KeyError:\n        return None"
+    for test, brk in (("not buffer", True), ("buffer is None", False)):
+        t = _clone(nodes)
+        t["_read_entry"] = ast.parse(helper).body[0]
+        gf = ast.parse("def get_file(self, filename):\n    buffer = self._read_entry(filename)\n    if %s:\n        raise FileNotPresent(filename)\n    return buffer" % test).body[0]
+        t["get_file"] = gf
+        out.append(("get_file: helper sentinel tested with `%s`" % test, t, brk))
     # get_files
     t = _clone(nodes)
     r = [n for n in ast.walk(t["get_files"]) if isinstance(n, ast.Return)][0]
